@@ -21,16 +21,16 @@ import (
 )
 
 type echCase struct {
-	Onm   string   `json:"onm"`
-	Inm   string   `json:"inm"`
-	Run   []int    `json:"run"`
-	Pad   string   `json:"pad"`
-	Sid   string   `json:"sid"`
-	Ck    string   `json:"ck"`
-	Suite string   `json:"suite"`
-	Op    string   `json:"op"`
-	Keys  []string `json:"keys"`
-	Hello aHello   `json:"hello"`
+	Onm     string   `json:"onm"`
+	Inm     string   `json:"inm"`
+	Run     []int    `json:"run"`
+	Pad     string   `json:"pad"`
+	Sid     string   `json:"sid"`
+	Ck      string   `json:"ck"`
+	Suite   string   `json:"suite"`
+	Op      string   `json:"op"`
+	Keys    []string `json:"keys"`
+	Hello   aHello   `json:"hello"`
 	Res     aRes     `json:"res"`
 	Holds   bool     `json:"holds"`
 	Classes []string `json:"classes"` // admissible alert classes when the specification admits more than one
@@ -68,10 +68,15 @@ func (b *scriptConn) Write(p []byte) (int, error) {
 	}
 	return b.w.Write(p)
 }
-func (b *scriptConn) Close() error                       { b.mu.Lock(); b.closed = true; b.mu.Unlock(); return nil }
-func (b *scriptConn) LocalAddr() net.Addr                { return &net.TCPAddr{} }
-func (b *scriptConn) RemoteAddr() net.Addr               { return &net.TCPAddr{} }
-func (b *scriptConn) SetDeadline(t time.Time) error      { b.mu.Lock(); b.deadlines = append(b.deadlines, t); b.mu.Unlock(); return nil }
+func (b *scriptConn) Close() error         { b.mu.Lock(); b.closed = true; b.mu.Unlock(); return nil }
+func (b *scriptConn) LocalAddr() net.Addr  { return &net.TCPAddr{} }
+func (b *scriptConn) RemoteAddr() net.Addr { return &net.TCPAddr{} }
+func (b *scriptConn) SetDeadline(t time.Time) error {
+	b.mu.Lock()
+	b.deadlines = append(b.deadlines, t)
+	b.mu.Unlock()
+	return nil
+}
 func (b *scriptConn) SetReadDeadline(t time.Time) error  { return nil }
 func (b *scriptConn) SetWriteDeadline(t time.Time) error { return nil }
 
